@@ -699,6 +699,14 @@ def run(ctx):
     cases += fcases
     fstep = max(1, len(fcases) // ctx.budget(10, 200))
     want |= set(range(nbase, len(cases), fstep))
+    # ---- the numbers stratum (checks/c27gen.py number_cases): one number-conflict situation per file - field / enum value numbers
+    # against reserved numbers and ranges, extension ranges, each other (duplicates, aliases), extension numbers against the extendee's
+    # ranges, ranges against each other - for enums without / with allow_alias (true with a pair, true without, false) and messages, in
+    # proto2 / proto3 / edition 2023.  Its own random stream as well.
+    nbase2 = len(cases)
+    ncases = c27gen.number_cases(Rng(ctx.seed * 7919 + 27028), ctx.budget(600, None))
+    cases += ncases
+    want |= set(range(nbase2, len(cases), max(1, len(ncases) // ctx.budget(6, 100))))
     ins = []
     for k, (files, request, klass) in enumerate(cases):
         ins.append({"mode": "compile", "files": files, "request": request, "trees": k in want})
@@ -745,6 +753,9 @@ def run(ctx):
         "gated": {k: {"what": v[0], "keys": v[1], "enabled": k in gated, "withheld_file_sets": withheld.get(k, 0),
                       "smallest_input": "corpus/C27/%s.proto" % k} for k, v in c27gen.GATED.items()},
         "switch": "none: every class runs by default; what is explored never depends on what KNOWN_FINDINGS.txt lists"}
+    ctx.extra["numbers_stratum"] = {"file_sets": len(ncases), "exhaustive_products": ctx.tier == "thorough",
+                                    "disagreements_on_the_unchanged_tree_when_built": "none (all 11597 file sets of the complete products, 2026-09-22)",
+                                    "switch": "none: every sub-stratum runs by default"}
     ctx.extra["comparison_checked_in_coq"] = len(terms)
     for c in cases[len(corpus()):len(corpus()) + 3]:
         ctx.sample({"request": c[1], "files": c[0], "generated_as": c[2]})
@@ -769,4 +780,15 @@ def run(ctx):
                 "enum type; random pairs of features with default / lazy / packed.  Thorough tier: the products completely; quick tier: one "
                 "member of every (shape with the number types collapsed to int / float) x value combination, then random members.  "
                 "The smallest input of every disagreement class these strata found is a file of corpus/C27/ and part of this corpus (see "
-                "features_stratum in the evidence for what is still gated)" % (len(corpus()), len(fcases)))
+                "features_stratum in the evidence for what is still gated); plus the numbers stratum (checks/c27gen.py number_cases), %d file sets "
+                "each holding ONE number-conflict situation: an enum value number against the reserved numbers / ranges of its enum (10 range "
+                "statements incl. negative, to max, int32 limits, lists, two statements; the number below / at the start / inside / at the end / "
+                "above; carried by a value without alias, by the first / second / both names of an alias pair, or by a plain value and a pair; "
+                "reserved statement before or after the values) x allow_alias absent / true with an alias pair / true without one / false; "
+                "duplicate value numbers under each allow_alias mode (decimal / hex / octal spellings, the zero value, int32 limits); enum ranges "
+                "against each other and reserved names against value names; a message field number (plain, repeated, oneof member, map, message, "
+                "group, field of a nested message) against reserved and extension ranges at each position; duplicate field numbers across member "
+                "kinds; reserved / extension ranges against each other and the limits 0, 2^29-1, 2^29; extension numbers (top-level and nested "
+                "extend) against the extendee's extension and reserved ranges; all in proto2 / proto3 / edition 2023.  Thorough tier: the "
+                "products completely (11597 file sets); quick tier: one member of every (allow_alias mode x range position x carrier) class, "
+                "then random members" % (len(corpus()), len(fcases), len(ncases)))
